@@ -38,6 +38,57 @@ def wfC : List (SN τ) → Prop
   | .choice .. :: _ => False
 end
 
+mutual
+/-- the same, decidable: what the driver checks on every schema it is given -/
+def wfNb : SN τ → Bool
+  | .container _ _ kids => wfLb kids && decide (names kids).Nodup
+  | .list _ _ _ _ _ kids => wfLb kids && decide (names kids).Nodup
+  | .leaf .. => true
+  | .leafList .. => true
+  | .choice _ _ _ cases => wfCb cases && decide (cases.map (·.name)).Nodup
+  | .case _ _ => false
+def wfLb : List (SN τ) → Bool
+  | [] => true
+  | x :: r => wfNb x && wfLb r
+def wfCb : List (SN τ) → Bool
+  | [] => true
+  | .case _ kids :: r => wfLb kids && wfCb r
+  | .container .. :: _ => false
+  | .list .. :: _ => false
+  | .leaf .. :: _ => false
+  | .leafList .. :: _ => false
+  | .choice .. :: _ => false
+end
+
+mutual
+theorem wfNb_sound : ∀ (sn : SN τ), wfNb sn = true → wfN sn
+  | .container _ _ kids, h => by
+    rw [wfNb, Bool.and_eq_true, decide_eq_true_eq] at h; rw [wfN]; exact ⟨wfLb_sound kids h.1, h.2⟩
+  | .list _ _ _ _ _ kids, h => by
+    rw [wfNb, Bool.and_eq_true, decide_eq_true_eq] at h; rw [wfN]; exact ⟨wfLb_sound kids h.1, h.2⟩
+  | .leaf .., _ => by rw [wfN]; trivial
+  | .leafList .., _ => by rw [wfN]; trivial
+  | .choice _ _ _ cases, h => by
+    rw [wfNb, Bool.and_eq_true, decide_eq_true_eq] at h; rw [wfN]; exact ⟨wfCb_sound cases h.1, h.2⟩
+  | .case _ _, h => by rw [wfNb] at h; cases h
+theorem wfLb_sound : ∀ (l : List (SN τ)), wfLb l = true → wfL l
+  | [], _ => by rw [wfL]; trivial
+  | x :: r, h => by
+    rw [wfLb, Bool.and_eq_true] at h; rw [wfL]; exact ⟨wfNb_sound x h.1, wfLb_sound r h.2⟩
+theorem wfCb_sound : ∀ (l : List (SN τ)), wfCb l = true → wfC l
+  | [], _ => by rw [wfC]; trivial
+  | .case _ kids :: r, h => by
+    rw [wfCb, Bool.and_eq_true] at h; rw [wfC]; exact ⟨wfLb_sound kids h.1, wfCb_sound r h.2⟩
+  | .container .. :: _, h => by rw [wfCb] at h; cases h
+  | .list .. :: _, h => by rw [wfCb] at h; cases h
+  | .leaf .. :: _, h => by rw [wfCb] at h; cases h
+  | .leafList .. :: _, h => by rw [wfCb] at h; cases h
+  | .choice .. :: _, h => by rw [wfCb] at h; cases h
+end
+
+/-- a whole schema: its top-level body -/
+def wfTop (top : List (SN τ)) : Bool := wfLb top && decide (names top).Nodup
+
 @[simp] theorem names_nil : names ([] : List (SN τ)) = [] := by simp [names, dataKids]
 @[simp] theorem cnames_nil : cnames ([] : List (SN τ)) = [] := by simp [cnames, caseKids]
 
@@ -121,7 +172,7 @@ theorem emitContainer_names (cfg : List Tok) (n : Tok) (pr : Bool) (kids : List 
 
 mutual
 /-- what is emitted is named like a node of the flattened map -/
-theorem defaultsS_names (cfg : List Tok) : ∀ (nodes : List (SN τ)), ∀ n ∈ dnames (defaultsS cfg nodes), n ∈ names nodes
+theorem emS_names (cfg : List Tok) : ∀ (nodes : List (SN τ)), ∀ n ∈ dnames (defaultsS cfg nodes), n ∈ names nodes
   | [], n, h => by simp [defaultsS] at h
   | .leaf a t d m :: r, n, h => by
     rw [defaultsS_leaf] at h
@@ -129,14 +180,14 @@ theorem defaultsS_names (cfg : List Tok) : ∀ (nodes : List (SN τ)), ∀ n ∈
     simp only [dnames_append, List.mem_append] at h
     rcases h with h | h
     · simp [emitLeaf_names cfg a d m n h]
-    · exact List.mem_cons_of_mem _ (defaultsS_names cfg r n h)
+    · exact List.mem_cons_of_mem _ (emS_names cfg r n h)
   | .container a pr kids :: r, n, h => by
     rw [defaultsS_container] at h
     rw [names_container]
     simp only [dnames_append, List.mem_append] at h
     rcases h with h | h
     · simp [emitContainer_names cfg a pr kids n h]
-    · exact List.mem_cons_of_mem _ (defaultsS_names cfg r n h)
+    · exact List.mem_cons_of_mem _ (emS_names cfg r n h)
   | .choice a b d cases :: r, n, h => by
     rw [defaultsS_choice] at h
     rw [names_choice]
@@ -145,21 +196,21 @@ theorem defaultsS_names (cfg : List Tok) : ∀ (nodes : List (SN τ)), ∀ n ∈
     · left
       unfold emitChoice at h
       split at h
-      · exact defaultsActive_names cfg cases n h
+      · exact emA_names cfg cases n h
       · cases d with
         | none => simp at h
-        | some dc => exact defaultsOfCase_names dc cases n h
-    · right; exact defaultsS_names cfg r n h
+        | some dc => exact emD_names dc cases n h
+    · right; exact emS_names cfg r n h
   | .list a ks mn mx u k :: r, n, h => by
-    rw [defaultsS_list] at h; rw [names_list]; exact List.mem_cons_of_mem _ (defaultsS_names cfg r n h)
+    rw [defaultsS_list] at h; rw [names_list]; exact List.mem_cons_of_mem _ (emS_names cfg r n h)
   | .leafList a t mn mx :: r, n, h => by
-    rw [defaultsS_leafList] at h; rw [names_leafList]; exact List.mem_cons_of_mem _ (defaultsS_names cfg r n h)
+    rw [defaultsS_leafList] at h; rw [names_leafList]; exact List.mem_cons_of_mem _ (emS_names cfg r n h)
   | .case a k :: r, n, h => by
     rw [defaultsS_case] at h
-    have := defaultsS_names cfg r n h
+    have := emS_names cfg r n h
     simp only [names, dataKids, List.map_cons, List.mem_cons] at this ⊢
     right; exact this
-theorem defaultsActive_names (cfg : List Tok) : ∀ (cases : List (SN τ)), ∀ n ∈ dnames (defaultsActive cfg cases), n ∈ cnames cases
+theorem emA_names (cfg : List Tok) : ∀ (cases : List (SN τ)), ∀ n ∈ dnames (defaultsActive cfg cases), n ∈ cnames cases
   | [], n, h => by simp [defaultsActive] at h
   | .case a kids :: r, n, h => by
     rw [defaultsActive_case] at h
@@ -168,66 +219,66 @@ theorem defaultsActive_names (cfg : List Tok) : ∀ (cases : List (SN τ)), ∀ 
     rcases h with h | h
     · left
       split at h
-      · exact defaultsS_names cfg kids n h
+      · exact emS_names cfg kids n h
       · simp at h
-    · right; exact defaultsActive_names cfg r n h
+    · right; exact emA_names cfg r n h
   | .choice .. :: r, n, h => by
     rw [defaultsActive.eq_def] at h
-    have := defaultsActive_names cfg r n h
+    have := emA_names cfg r n h
     simp only [cnames, caseKids, List.map_cons, List.mem_cons] at this ⊢
     right; exact this
   | .container .. :: r, n, h => by
     rw [defaultsActive.eq_def] at h
-    have := defaultsActive_names cfg r n h
+    have := emA_names cfg r n h
     simp only [cnames, caseKids, List.map_cons, List.mem_cons] at this ⊢
     right; exact this
   | .list .. :: r, n, h => by
     rw [defaultsActive.eq_def] at h
-    have := defaultsActive_names cfg r n h
+    have := emA_names cfg r n h
     simp only [cnames, caseKids, List.map_cons, List.mem_cons] at this ⊢
     right; exact this
   | .leaf .. :: r, n, h => by
     rw [defaultsActive.eq_def] at h
-    have := defaultsActive_names cfg r n h
+    have := emA_names cfg r n h
     simp only [cnames, caseKids, List.map_cons, List.mem_cons] at this ⊢
     right; exact this
   | .leafList .. :: r, n, h => by
     rw [defaultsActive.eq_def] at h
-    have := defaultsActive_names cfg r n h
+    have := emA_names cfg r n h
     simp only [cnames, caseKids, List.map_cons, List.mem_cons] at this ⊢
     right; exact this
-theorem defaultsOfCase_names (dc : Tok) : ∀ (cases : List (SN τ)), ∀ n ∈ dnames (defaultsOfCase dc cases), n ∈ cnames cases
+theorem emD_names (dc : Tok) : ∀ (cases : List (SN τ)), ∀ n ∈ dnames (defaultsOfCase dc cases), n ∈ cnames cases
   | [], n, h => by simp [defaultsOfCase] at h
   | .case a kids :: r, n, h => by
     rw [defaultsOfCase_case] at h
     rw [cnames_case]
     simp only [List.mem_append]
     split at h
-    · left; exact defaultsS_names [] kids n h
-    · right; exact defaultsOfCase_names dc r n h
+    · left; exact emS_names [] kids n h
+    · right; exact emD_names dc r n h
   | .choice .. :: r, n, h => by
     rw [defaultsOfCase.eq_def] at h
-    have := defaultsOfCase_names dc r n h
+    have := emD_names dc r n h
     simp only [cnames, caseKids, List.map_cons, List.mem_cons] at this ⊢
     right; exact this
   | .container .. :: r, n, h => by
     rw [defaultsOfCase.eq_def] at h
-    have := defaultsOfCase_names dc r n h
+    have := emD_names dc r n h
     simp only [cnames, caseKids, List.map_cons, List.mem_cons] at this ⊢
     right; exact this
   | .list .. :: r, n, h => by
     rw [defaultsOfCase.eq_def] at h
-    have := defaultsOfCase_names dc r n h
+    have := emD_names dc r n h
     simp only [cnames, caseKids, List.map_cons, List.mem_cons] at this ⊢
     right; exact this
   | .leaf .. :: r, n, h => by
     rw [defaultsOfCase.eq_def] at h
-    have := defaultsOfCase_names dc r n h
+    have := emD_names dc r n h
     simp only [cnames, caseKids, List.map_cons, List.mem_cons] at this ⊢
     right; exact this
   | .leafList .. :: r, n, h => by
     rw [defaultsOfCase.eq_def] at h
-    have := defaultsOfCase_names dc r n h
+    have := emD_names dc r n h
     simp only [cnames, caseKids, List.map_cons, List.mem_cons] at this ⊢
     right; exact this
 end
@@ -304,7 +355,7 @@ theorem second_S : ∀ (nodes : List (SN τ)), wfL nodes → (names nodes).Nodup
     rw [names_leaf] at hnd h
     rw [defaultsS_leaf] at h ⊢
     have hnd' : ([a] ++ names r).Nodup := hnd
-    have hl := Upd_left hnd' (defaultsS_names c r) h
+    have hl := Upd_left hnd' (emS_names c r) h
     have hr := Upd_right hnd' (fun n hn => by simp [emitLeaf_names c a d m n hn]) h
     rw [second_S r hw.2 (nodup_right hnd') c c' hr, List.append_nil]
     have ha := hl a (by simp)
@@ -331,7 +382,7 @@ theorem second_S : ∀ (nodes : List (SN τ)), wfL nodes → (names nodes).Nodup
     rw [names_container] at hnd h
     rw [defaultsS_container] at h ⊢
     have hnd' : ([a] ++ names r).Nodup := hnd
-    have hl := Upd_left hnd' (defaultsS_names c r) h
+    have hl := Upd_left hnd' (emS_names c r) h
     have hr := Upd_right hnd' (fun n hn => by simp [emitContainer_names c a pr kids n hn]) h
     rw [second_S r hw.2 (nodup_right hnd') c c' hr, List.append_nil]
     have ha := hl a (by simp)
@@ -375,11 +426,11 @@ theorem second_S : ∀ (nodes : List (SN τ)), wfL nodes → (names nodes).Nodup
       intro n hn
       unfold emitChoice at hn
       split at hn
-      · exact defaultsActive_names c cases n hn
+      · exact emA_names c cases n hn
       · cases d with
         | none => simp at hn
-        | some dc => exact defaultsOfCase_names dc cases n hn
-    have hl := Upd_left hnd (defaultsS_names c r) h
+        | some dc => exact emD_names dc cases n hn
+    have hl := Upd_left hnd (emS_names c r) h
     have hr := Upd_right hnd hE h
     rw [second_S r hw.2 (nodup_right hnd) c c' hr, List.append_nil]
     have hndc := nodup_left hnd
@@ -421,7 +472,7 @@ theorem second_S : ∀ (nodes : List (SN τ)), wfL nodes → (names nodes).Nodup
           | cons n rest =>
             exfalso
             have hn : n ∈ dnames (defaultsOfCase dc cases) := by rw [hE']; simp
-            have hcn := defaultsOfCase_names dc cases n hn
+            have hcn := emD_names dc cases n hn
             exact hact' ((activeCases_iff cases c').mpr ⟨n, hcn, (hl' n hcn).mpr hn⟩)
 theorem second_A : ∀ (cases : List (SN τ)), wfC cases → (cnames cases).Nodup → ∀ (c c' : List Tok),
     Upd (cnames cases) c c' (defaultsActive c cases) → defaultsActive c' cases = []
@@ -433,9 +484,9 @@ theorem second_A : ∀ (cases : List (SN τ)), wfC cases → (cnames cases).Nodu
     have hE : ∀ n ∈ dnames (if active kids c = true then defaultsS c kids else []), n ∈ names kids := by
       intro n hn
       split at hn
-      · exact defaultsS_names c kids n hn
+      · exact emS_names c kids n hn
       · simp at hn
-    have hl := Upd_left hnd (defaultsActive_names c r) h
+    have hl := Upd_left hnd (emA_names c r) h
     have hr := Upd_right hnd hE h
     rw [second_A r hw.2 (nodup_right hnd) c c' hr, List.append_nil]
     by_cases hact : active kids c = true
@@ -471,7 +522,7 @@ theorem second_D : ∀ (cases : List (SN τ)), wfC cases → (cnames cases).Nodu
         apply defaultsActive_inactive c' r hw.2
         intro n hn hc
         have := (h n (List.mem_append_right _ hn)).mp hc
-        exact nodup_disj hnd (defaultsS_names [] kids n this) hn
+        exact nodup_disj hnd (emS_names [] kids n this) hn
       rw [hr, List.append_nil]
       split
       · apply second_S kids hw.1 (nodup_left hnd) [] c'
@@ -484,7 +535,7 @@ theorem second_D : ∀ (cases : List (SN τ)), wfC cases → (cnames cases).Nodu
         intro ha
         obtain ⟨n, hn, hc⟩ := (active_iff kids c').mp ha
         have := (h n (List.mem_append_left _ hn)).mp hc
-        exact nodup_disj hnd hn (defaultsOfCase_names dc r n this)
+        exact nodup_disj hnd hn (emD_names dc r n this)
       rw [if_neg this, List.nil_append]
       exact second_D r hw.2 (nodup_right hnd) dc c' (fun n hn => h n (List.mem_append_right _ hn))
   | .container .. :: _, hw, _, _, _, _ => by rw [wfC] at hw; exact hw.elim
